@@ -87,6 +87,7 @@ func boolValueCond(v ssa.Value) func(ssa.Value) (bool, bool) {
 func checkC14(c *Ctx) {
 	c.Explanation = "Decides the M3 shutdown hand-shake and handle re-entrancy structurally: (O1) every function that sends on the metric queue increments the in-flight count, then loads done (leaving without sending when set), then sends, and decrements the count on every exit, each exactly once per call; (O2) the queue and the done channel are closed in one function only, after the successful CAS on done and after the loop that waits for the in-flight count to reach zero, and a failed CAS returns a non-nil error without closing; with sequentially consistent atomics this ordering is necessary and sufficient for 'no send on a closed channel'; (O3) every goroutine the constructor starts is preceded by wg.Add(1), defers wg.Done(), the batching goroutine leaves only when the queue is closed, the clock goroutine leaves on the done channel, and Close waits for both after closing; (O4) the reporter's counters/flags are atomic-only and every cached-handle method or closure stores only into its own locals (re-entrant handles); (O5) every binary-search result in package m3 is range-checked before it is used as an index."
 	c.Explanation += " Added later: no send on the queue is reachable after a non-deferred decrement of the in-flight count; the cached tag slice is never appended to in place (shared with C12)."
+	c.Explanation += " Added by round 9: (O4 no-send-under-lock) no mutex of the reporter's packages is held at an operation that can reach a blocking channel send."
 	c.NotDecided = []string{"absence of deadlock as a liveness theorem", "behaviour of the UDP socket under faults (C15)"}
 	c.Assumptions = append(c.Assumptions, "Go atomics are sequentially consistent")
 
